@@ -663,7 +663,8 @@ pub fn gen_family(r: &mut Rng, which: u64, scale: u32) -> Program {
                 prog.nodes.insert(nid(Kind::N, i), NodeSpec { ops: vec![rd(p), rd(nid(Kind::In, i % 4))], combine: Combine::Scale(10, i64::from(i)) });
             }
             let all: Vec<NodeId> = (0..scale.max(2)).map(|i| nid(Kind::N, i)).collect();
-            prog.nodes.insert(nid(Kind::N, 1000), NodeSpec { ops: vec![Op::Unordered(all)], combine: Combine::Sum });
+            // (the aggregator's index is above every consumer's, whatever the scale)
+            prog.nodes.insert(nid(Kind::N, 1_000_000), NodeSpec { ops: vec![Op::Unordered(all)], combine: Combine::Sum });
         }
         2 => {
             // firewall -> projection -> firewall sandwich, twice
